@@ -52,7 +52,7 @@ SIMTIME_NOTE = 'simulated poll-clock seconds advanced by the scheduler (FileWatc
 PROBES = ['write_after_read', 'nested_state_after_update', 'shape_change_after_read', 'file_reload_fired', 'linked_mask_after_update',
           'stat_after_update', 'copy_read', 'view_read', 'poll_tick_no_change', 'poll_after_file_vanished', 'link_swapped_same_endpoints', 'listener_read_inside_write',
           'listener_fresh_clone_compared', 'refresh_drops_component', 'refresh_from_kept_source', 'kept_source_updated',
-          'array_shared_between_datasets', 'refresh_adds_component', 'kept_source_reshaped', 'free_state_read', 'member_state_read', 'old_state_reapplied', 'viewer_histogram_read', 'viewer_histogram_compared', 'viewer_display_flags_changed']
+          'array_shared_between_datasets', 'refresh_adds_component', 'kept_source_reshaped', 'refresh_changes_ndim', 'free_state_read', 'member_state_read', 'old_state_reapplied', 'viewer_histogram_read', 'viewer_histogram_compared', 'viewer_display_flags_changed']
 PROBES_THOROUGH_ONLY = []
 
 READS = ('read_mask', 'read_val', 'read_stat', 'read_hist', 'read_copy', 'hv_read', 'hv_new', 'read_free', 'read_member', 'hv_flags')
@@ -434,6 +434,9 @@ def apply_op(w, op, res, reading, skip=False):
             shape = d.shape
             if op[3] is not None:
                 cands = [s for s in W.SHAPES if len(s) == d.ndim]
+                if op[3] == 2 and op[2] % 3 == 0:
+                    cands = list(W.SHAPES)          # sometimes also another number of dimensions
+                    res.probe('refresh_changes_ndim')
                 shape = cands[op[3] % len(cands)]
                 if any(isinstance(s.subset_state, S.MaskSubsetState) for s in d.subsets):
                     shape = d.shape
